@@ -248,7 +248,7 @@ func childMain(line []byte) {
 	}
 	var err error
 	switch {
-	case c.Fault == "provider-panic" || (c.Side == "client" && c.Fault == "hostile-panic-value"):
+	case c.Fault == "provider-panic" || (c.Side == "client" && (c.Fault == "hostile-panic-value" || c.Fault == "nested-hostile-panic-value")):
 		err = scenarioProvider(&c)
 	case c.Side == "server" && isRawFault(c.Fault):
 		err = scenarioServerRaw(&c)
@@ -686,7 +686,7 @@ func scenarioServerAPI(c *c11Case) error {
 	waitEntered(s.entered, 2, "slow")
 	var fault string
 	switch c.Fault {
-	case "service-panic", "hostile-panic-value":
+	case "service-panic", "hostile-panic-value", "nested-hostile-panic-value":
 		fault = call(a, "boom", "", c.Variant)
 	case "invoke-plugin-panic":
 		fault = echo(a, "INVOKE-PLUGIN-BOOM")
